@@ -48,11 +48,31 @@ def enforcer():
     return _enf
 
 
-def impl_decisions(value, k, names=None):
+_enf0 = None
+
+
+def empty_enforcer():
+    """an enforcer that never had a rule: what a service holds when it enforces check objects only"""
+    global _enf0
+    if _enf0 is None:
+        from oslo_config import cfg
+        from oslo_policy import policy
+        conf = cfg.ConfigOpts()
+        conf([], project='verif')
+        _enf0 = policy.Enforcer(conf, use_conf=False)
+    return _enf0
+
+
+def impl_decisions(value, k, names=None, by_object=False):
     """decisions of Enforcer.enforce for every assignment (bit mask) to leaves role:r0..r{k-1}"""
     from oslo_policy import policy
-    e = enforcer()
-    e.set_rules(policy.Rules.from_dict({'the_rule': value}), use_conf=False)
+    if by_object:
+        e = empty_enforcer()
+        the_rule = policy._parser.parse_rule(value)
+    else:
+        e = enforcer()
+        e.set_rules(policy.Rules.from_dict({'the_rule': value}), use_conf=False)
+        the_rule = 'the_rule'
     out = []
     names = names or ['r%d' % i for i in range(k)]
     # ONE target object and ONE credentials object for all assignments, updated in place: a decision depends on what
@@ -62,7 +82,7 @@ def impl_decisions(value, k, names=None):
         roles = [names[i] for i in range(k) if (m >> i) & 1]
         creds['roles'][:] = roles
         try:
-            out.append(bool(e.enforce('the_rule', target, creds)))
+            out.append(bool(e.enforce(the_rule, target, creds)))
         except Exception as ex:   # noqa
             out.append('EXC ' + type(ex).__name__)
     return out
@@ -205,6 +225,19 @@ def check_spec_case(run, o, k, text_variants, spec_dec, label):
                           {'kind': 'failing-input', 'suite': 'spec-c01', 'input': {'rule': text, 'k': k},
                            'expected': spec_dec, 'observed': got})
             return False
+    if len(text_variants[0]) % 2 == 1 or label == 'deep':
+        # the same rule handed over as a check object to an enforcer that holds no rules at all
+        run.evaluations += 1
+        got = impl_decisions(text_variants[0], k, by_object=True)
+        if got != spec_dec:
+            bad = [m for m in range(len(got)) if got[m] != spec_dec[m]][0]
+            run.violation('decision:%s:check-object' % label,
+                          'rule %r passed as a check object to an enforcer without rules decides %r under roles '
+                          'mask %d, documented value %r' % (text_variants[0], got[bad], bad, spec_dec[bad]),
+                          {'kind': 'failing-input', 'suite': 'spec-c01',
+                           'input': {'rule': text_variants[0], 'k': k, 'by_object': True},
+                           'expected': spec_dec, 'observed': got})
+            return False
     if k >= 1 and len(text_variants[0]) % 2 == 0:
         # the last leaf replaced by a constant: '@' (always true) or '!' (always false)
         last = 'role:r%d' % (k - 1)
@@ -312,6 +345,42 @@ def run(run, binfo):
         '31-60': sum(1 for x in sizes if 30 < x <= 60), '>60': sum(1 for x in sizes if x > 60)}
     run.sample({'suite': 'spec-c01 random', 'rule': mtexts[0]})
 
+    # ---- (c2) deep nesting: long runs of 'not', towers of parentheses, right-nested and/or
+    def leafx(i):
+        return [1, i]
+
+    def nots(d, x):
+        for _ in range(d):
+            x = [0, x]
+        return x
+
+    def tower(d):
+        # r0 and (r1 or (r0 and (r1 or ...)))
+        o = [0, [0, leafx(d % 2)]]
+        for lvl in range(d - 1, -1, -1):
+            if lvl % 2:
+                o = [1, [0, [0, leafx(1)]], [0, [2, o]]]
+            else:
+                o = [0, [1, [0, leafx(0)], [2, o]]]
+        return o
+
+    deep = []
+    for d in (8, 20, 30, 31, 32, 33, 34, 35, 40, 47, 58) + ((64, 90, 150) if tier == 'thorough' else ()):
+        deep.append([0, [0, nots(d, leafx(0))]])
+        deep.append([1, [0, [0, leafx(1)]], [0, nots(d, leafx(0))]])
+        deep.append([0, [1, [0, leafx(1)], nots(d, leafx(0))]])
+        deep.append([0, [0, nots(d // 2, [2, [0, [0, nots(d - d // 2, leafx(0))]]])]])
+        x = leafx(0)
+        for _ in range(d):
+            x = [0, [2, [0, [0, x]]]]           # not (not (not ... ))
+        deep.append([0, [0, x]])
+    for d in (6, 10, 14, 20, 31, 33, 36) + ((50, 80) if tier == 'thorough' else ()):
+        deep.append(tower(d))
+    for o, ans in zip(deep, run_batch([[5, o, 2] for o in deep])):
+        toks, dec = ans[0], [bool(b) for b in ans[1]]
+        check_spec_case(run, o, 2, [render(toks, rng, names, plain=True), render(toks, rng, names)], dec, 'deep')
+    run.count('deep_expressions', len(deep))
+
     # ---- (d) list-of-lists shapes
     leaves = ['role:r0', 'role:r1', '@', '!', 'x']
     inner_opts = [[]] + [[a] for a in leaves] + [[a, b] for a in leaves[:3] for b in leaves[:4]]
@@ -365,7 +434,8 @@ def run(run, binfo):
     run.rule = ('every token sequence of length <= %d over %r (model vs implementation); every '
                 'sentence of the documented grammar up to %d nodes and %d random expressions up '
                 'to ~60 tokens in 3 random renderings, each under all 2^k role assignments '
-                '(extracted spec den_o vs Enforcer.enforce); every list-of-lists shape up to '
+                '(extracted spec den_o vs Enforcer.enforce, by name and as a check object on an enforcer without rules); '
+                'runs of up to 58 nots / 36-level and-or towers (thorough: 150 / 80); every list-of-lists shape up to '
                 'length %d. non-trivial = decision not constant over the assignments'
                 % (maxlen, ALPHA, maxnodes, nrand, 3 if tier == 'thorough' else 2))
     run.exhaustive = False
@@ -374,7 +444,7 @@ def run(run, binfo):
 def replay(run, rep):
     inp = rep.get('input')
     if isinstance(inp, dict) and 'k' in inp:
-        got = impl_decisions(inp['rule'], inp['k'])
+        got = impl_decisions(inp['rule'], inp['k'], by_object=bool(inp.get('by_object')))
         print('observed', got, 'expected', rep.get('expected'))
         return got == rep.get('expected')
     if isinstance(inp, dict) and 'roles' in inp:
